@@ -624,6 +624,7 @@ package leveldb
 
 // Overlap search in a sorted, disjoint level: the result is exactly the files that overlap [umin, umax] in the
 // order of the CONFIGURED comparer.
+//@ spec func inRange(t ref, umin key, umax key) bool = (isnil(umin) || kcmp(ukeyof(t.imin), umin) >= 0) && (isnil(umax) || kcmp(ukeyof(t.imax), umax) <= 0)
 //@ ghost var gOvB int
 //@ ghost var gOvE int
 //@ func (tFiles).getOverlaps
@@ -645,7 +646,11 @@ package leveldb
 //@   modifies dst[0:cap(dst)], gOvB, gOvE
 //@   loop 1
 //@     modifies dst[0:cap(dst)]
+//@     invariant [C01,C06:level-0-search-range-is-closed-so-far] 0 <= i && (forall k int :: (0 <= k && k < i && k < len(tf) && ovl(tf[k], umin, umax)) ==> inRange(tf[k], umin, umax))
 //@     invariant [C01,C06:result-list-is-the-callers-or-new] (samebase(dst, old(dst)) && cap(dst) == cap(old(dst))) || freshbase(dst)
+// In a level whose tables may overlap each other (level 0) the search range is widened until it is closed: every
+// table that overlaps the final range lies inside it, so no table left behind shares a user key with a table taken.
+//@   guarantees [C01,C06:level-0-search-range-is-closed] (overlapped && len(tf) > 0) ==> (forall k int :: (0 <= k && k < len(tf) && ovl(tf[k], umin, umax)) ==> inRange(tf[k], umin, umax))
 //@   ensures [C06:empty-level-has-no-overlaps] len(tf) == 0 ==> len(result) == 0
 //@   ensures [C01,C06:result-list-is-the-callers-or-new] isnil(result) || base(result) == base(old(dst)) || freshbase(result)
 //@   ensures [C01,C06:binary-search-mode-leaves-the-callers-list-alone] !overlapped ==> (unchanged(old(dst)) && (isnil(result) || freshbase(result)))
